@@ -73,7 +73,7 @@ func TestC09_Params(t *testing.T) {
 		doc := jv.VObj([]jv.Member{{K: "a", V: subj}, {K: "s", V: jv.VStr("a,b,,aab,a")}, {K: "arr", V: jv.VArr([]jv.Val{jv.VInt(1), jv.VInt(2), jv.VInt(3)})}})
 		big := func(label string) ast.Expr { return ast.Lit(jv.VInt(gen.HostileInt(t, n))) }
 		var e ast.Expr
-		kind := rapid.IntRange(0, 11).Draw(t, "kind")
+		kind := rapid.IntRange(0, 13).Draw(t, "kind")
 		label := ""
 		switch kind {
 		case 0, 1:
@@ -120,6 +120,28 @@ func TestC09_Params(t *testing.T) {
 		case 10:
 			e = ast.Call("to_number", ast.A(ast.RawS(gen.Pick(t, "bignum", bigNumTexts))))
 			label = "to_number-text"
+		case 12, 13:
+			// a call that can only fail (another argument is invalid) must fail
+			// before it does anything sized by the huge one: widths of 2^28..2^31
+			// (a reservation of that size shows as allocation, without
+			// exhausting the machine), counts over the whole range
+			w := ast.Lit(jv.VInt(gen.Pick(t, "hugewidth", []int64{1 << 28, 1 << 30, 1<<31 - 1, 1 << 31, 3 << 30})))
+			badPad := ast.RawS(gen.Pick(t, "badpad", []string{"", "ab", "éé", "   "}))
+			switch rapid.IntRange(0, 5).Draw(t, "invalidcall") {
+			case 0:
+				e = ast.Call("pad_left", ast.A(ast.F("s")), ast.A(w), ast.A(badPad))
+			case 1:
+				e = ast.Call("pad_right", ast.A(ast.F("s")), ast.A(w), ast.A(badPad))
+			case 2:
+				e = ast.Call(gen.Pick(t, "padfn", []string{"pad_left", "pad_right"}), ast.A(ast.F("arr")), ast.A(w))
+			case 3:
+				e = ast.Call(gen.Pick(t, "padfn", []string{"pad_left", "pad_right"}), ast.A(ast.F("s")), ast.A(w), ast.A(ast.F("arr")))
+			case 4:
+				e = ast.Call("split", ast.A(ast.F("s")), ast.A(ast.F("arr")), ast.A(big("count")))
+			default:
+				e = ast.Call("replace", ast.A(ast.F("s")), ast.A(ast.RawS("a")), ast.A(ast.F("arr")), ast.A(big("count")))
+			}
+			label = "invalid-call-huge-argument"
 		default:
 			// negative / huge widths and counts are errors, not work
 			e = ast.Call("pad_left", ast.A(ast.F("s")), ast.A(ast.Lit(jv.VInt(-gen.HostileInt(t, n)&^(1<<62)*-1))))
